@@ -4,7 +4,7 @@ Writes /verif/seeded/matrix.json: {mutant: {property: exit code}} and prints a s
 import json, os, subprocess, sys, concurrent.futures as cf, shutil
 V = "/verif"
 props = [c["property_id"] for c in json.load(open(f"{V}/MANIFEST.json"))["checks"]]
-muts = sorted(d for d in os.listdir(f"{V}/seeded") if os.path.isdir(f"{V}/seeded/{d}"))
+muts = sorted(d for d in os.listdir(f"{V}/seeded") if os.path.isdir(f"{V}/seeded/{d}") and d != "retired")
 only = sys.argv[1:]
 if only:
     muts = [m for m in muts if m in only]
@@ -28,7 +28,10 @@ def run(args):
     m, p, wt = args
     env = dict(os.environ, PYVC_REPO=wt, PYVC_EVIDENCE_DIR=f"/tmp/wtm/ev_{m}", PYVC_REPLAY_DIR=f"/tmp/wtm/rp_{m}")
     os.makedirs(env["PYVC_EVIDENCE_DIR"], exist_ok=True)
-    r = subprocess.run(["python3-vt", "-m", "pyvc", "check", p], cwd=SNAP, env=env, capture_output=True, text=True, timeout=1800)
+    try:
+        r = subprocess.run(["python3-vt", "-m", "pyvc", "check", p], cwd=SNAP, env=env, capture_output=True, text=True, timeout=900)
+    except subprocess.TimeoutExpired:
+        return m, p, "timeout", []
     viol = [l.split("replay=")[1].split("/")[-1].replace(".json", "").split(" ")[0] for l in r.stdout.splitlines() if l.startswith("VIOLATION")]
     return m, p, r.returncode, viol
 
